@@ -706,3 +706,9 @@ mod test {
         }
     }
 }
+
+/// Verification hook (feature `verif`, add-only): run the data query expression parser on a string.
+#[cfg(feature = "verif")]
+pub fn verif_parse_dqe(input: &str) -> Option<Dqe> {
+    parser().parse(input).into_result().ok()
+}
